@@ -164,6 +164,85 @@ static std::string icmp(const toks_t& t)
     return out;
 }
 
+// mcmp <value> <value>: the whole of compare() and the six operators, with the storage kind of every node chosen explicitly
+// (tokens: n t f E(=json()) I<dec> U<dec> d<16 hex> e<4 hex> s<hex> b<hex> [ ... ] { k<hex> <value> ... })
+static jc::json read_cval(const toks_t& t, std::size_t& pos)
+{
+    if (pos >= t.size()) throw bad_op{};
+    const std::string& tok = t[pos++];
+    if (tok == "n") return jc::json::null();
+    if (tok == "t") return jc::json(true);
+    if (tok == "f") return jc::json(false);
+    if (tok == "E") return jc::json();
+    if (tok == "[")
+    {
+        jc::json a(jc::json_array_arg);
+        while (true)
+        {
+            if (pos >= t.size()) throw bad_op{};
+            if (t[pos] == "]") { ++pos; break; }
+            a.push_back(read_cval(t, pos));
+        }
+        return a;
+    }
+    if (tok == "{")
+    {
+        jc::json o(jc::json_object_arg);
+        while (true)
+        {
+            if (pos >= t.size()) throw bad_op{};
+            if (t[pos] == "}") { ++pos; break; }
+            if (t[pos].empty() || t[pos][0] != 'k') throw bad_op{};
+            std::string key = unhex(t[pos], 1);
+            ++pos;
+            jc::json v = read_cval(t, pos);
+            o.try_emplace(key, std::move(v));
+        }
+        return o;
+    }
+    if (tok.size() < 1) throw bad_op{};
+    if (tok[0] == 'I' || tok[0] == 'U') return stored_int(tok);
+    if (tok[0] == 'd')
+    {
+        if (tok.size() != 17) throw bad_op{};
+        uint64_t bits = std::strtoull(tok.c_str() + 1, nullptr, 16);
+        double d;
+        std::memcpy(&d, &bits, 8);
+        return jc::json(d);
+    }
+    if (tok[0] == 'e')
+    {
+        if (tok.size() != 5) throw bad_op{};
+        return jc::json(jc::half_arg, static_cast<uint16_t>(std::strtoul(tok.c_str() + 1, nullptr, 16)));
+    }
+    if (tok[0] == 's') return jc::json(unhex(tok, 1));
+    if (tok[0] == 'b')
+    {
+        std::string raw = unhex(tok, 1);
+        return jc::json(jc::byte_string_arg, std::vector<uint8_t>(raw.begin(), raw.end()));
+    }
+    throw bad_op{};
+}
+
+static int sign_of(int c) { return c < 0 ? -1 : (c > 0 ? 1 : 0); }
+
+static std::string mcmp(const toks_t& t)
+{
+    std::size_t p = 2;
+    jc::json a = read_cval(t, p);
+    jc::json b = read_cval(t, p);
+    if (p != t.size()) throw bad_op{};
+    std::string out = "ok c" + std::to_string(sign_of(a.compare(b)));
+    out += (a == b) ? " eq" : " ne";
+    out += (a != b) ? " NE" : " EQ";
+    out += (a < b) ? " lt" : " nl";
+    out += (a > b) ? " gt" : " ng";
+    out += (a <= b) ? " le" : " nle";
+    out += (a >= b) ? " ge" : " nge";
+    out += " r" + std::to_string(sign_of(b.compare(a)));
+    return out;
+}
+
 template <class T, class Json>
 static std::string isas1(const Json& v, const char* name)
 {
@@ -200,6 +279,7 @@ std::string jvh::handle(const toks_t& t)
     if (t[1] == "cmp") return t[2] == "j" ? cmp<json>(t) : cmp<ojson>(t);
     if (t[1] == "isas") return isas(t);
     if (t[1] == "icmp") return icmp(t);
+    if (t[1] == "mcmp") return mcmp(t);
     throw bad_op{};
 }
 
